@@ -440,7 +440,7 @@ def run(seed, tier, prop="C18"):
     res["known_hits"] = dict(fnd.hits)
     res["steps"] = len(records) * (1 + K)
     res["states"] = sorted(w0.state_sigs)
-    if seed % 97 == 0 or not res["ok"]:
+    if (seed % 97 == 0 or (seed & 0xFFFFF) < 2) or not res["ok"]:
         res["sample"] = {"seed": int(seed), "ops": [x["op"] + ":" + str(x.get("cls") or x.get("how") or x.get("which") or x.get("name") or "") for x in records]}
     res["wall"] = time.time() - t0
     return res
